@@ -156,6 +156,10 @@ def gen_lens(ch, feats, nsurf=None, harsh=False, max_surf=12):
             if kind == 'chebyshev':
                 op['norm_x'] = ch.rounded(ch.uniform(20, 60), 3)
                 op['norm_y'] = ch.rounded(ch.uniform(20, 60), 3)
+                if ch.chance(0.3):
+                    # a normalisation box that only just holds the beam
+                    op['norm_x'] = op['norm_y'] = ch.rounded(
+                        epd * ch.uniform(0.55, 0.9), 3)
             if ch.chance(0.5):
                 op['tol'] = ch.pick([1e-6, 1e-8, 1e-10, 1e-12], tag='tol')
             if ch.chance(0.3):
